@@ -237,7 +237,21 @@ def run(rep, tier, seed, proof_ok):
                 "expectations that an evaluation repeated without change runs nothing kept again, that a kept reader is served from the store "
                 "while the loaded paths serve the same content and runs again when they serve content not seen before; one third of "
                 "{way of evaluating} x {depth} x {history} in the quick tier (the other dimensions rotating) + 4 seeded random points, the whole "
-                "product of the three + 100 random points x {local store, local store behind the LRU cache of 3 entries} in the thorough tier")
+                "product of the three + 100 random points x {local store, local store behind the LRU cache of 3 entries} in the thorough tier; "
+                "access dimension (c09_access.py): the WAY the code reaches dds.load / dds.keep x placement {kept function, helper of a kept function, "
+                "root, helper, data function} x producer {dds.keep earlier in the same evaluation, an earlier evaluation, later in the same evaluation, "
+                "never} x {fresh, populated} x {local, memory store}: the load (and / or the keep of the producer and of the reader) is spelled through "
+                "{import dds, from dds import load, import dds as d, from dds import load as ld, alias variable ld = dds.load} x {at module level, "
+                "inside the body of the function that uses it}, or the load sits in a helper module reached through {import lib, from lib import "
+                "read_p, import lib as hl, import pkg.lib, from pkg import lib} x {at module level, inside the body}; history: (produce,) evaluate "
+                "twice, change the producer's tracked variable, (re-produce,) evaluate twice, set the variable back, (re-produce,) evaluate, load "
+                "every path outside; compared with the dds-free execution of the same files, with the expectations that an unchanged kept reader / "
+                "producer is served from the store, that the kept reader runs again when the loaded path serves another result, that "
+                "read-before-produce / never-produced is rejected by a DDS error and commits nothing - or that the form is refused loudly: EVERY "
+                "evaluation of the history rejected with a DDS error (never accepted for module-level import dds); quick: every form of the load "
+                "under a kept reader and read-before-produce, every form of the keep, one form throughout the module (70) + 8 seeded random "
+                "points; thorough: forms of the load x placements x producers + forms of the keep x placements x producers (+ the same form for "
+                "both) + 200 random points")
     jobs = []
     for placement, producer, populated, argp in itertools.product(PLACEMENTS, PRODUCERS, (False, True), (False, True)):
         if populated and producer in ("earlier-evaluation", "never"):
@@ -305,10 +319,11 @@ def run(rep, tier, seed, proof_ok):
         if not rejected and job["placement"] in ("kept-function", "data-function") and len(calls) >= 2 and calls[0]["impl"]["out"].startswith("ok:"):
             if "reader" in calls[1]["impl"]["log"]:
                 rep.violation("reader-recomputed-unchanged", f"{name}: the kept reader ran again although /p serves the same result", replay)
+    import c09_access
     import c09_nested
     import c09_threads
     rep.extra["input_distribution"] = {"scenarios": len(jobs), "outcomes_of_root_calls": outcomes, "threads": c09_threads.run(rep, tier, seed, proof_ok),
-                                       "nested": c09_nested.run(rep, tier, seed, proof_ok)}
+                                       "nested": c09_nested.run(rep, tier, seed, proof_ok), "access": c09_access.run(rep, tier, seed, proof_ok)}
     rep.sample({"scenario": "root/keep-before/fresh/ret", "events_kinds": [e[0] if e[0] != "act" else e[1]["a"] + ":" + e[1].get("fn", "") for e in jobs[0]["events"]]})
 
 
@@ -320,5 +335,8 @@ def replay(path):
     if "nscen" in r:
         import c09_nested
         return c09_nested.replay(r)
+    if "ascen" in r:
+        import c09_access
+        return c09_access.replay(r)
     import c01
     return c01.replay(path)
